@@ -1,6 +1,6 @@
 (** C13 — inflation mints exactly the scheduled amount and distributes all of it.
     This file holds only the exported statements (model: Model.v; schedule, [Consistent], [hist_ok]: Spec.v). *)
-From Coq Require Import ZArith List Bool.
+From Coq Require Import String ZArith List Bool.
 Import ListNotations.
 Require Import Nib.Lib.Dec Nib.C13.Model Nib.C13.Spec Nib.C13.Check Nib.C13.Arith Nib.C13.Proofs.
 Local Open Scope Z_scope.
@@ -13,18 +13,25 @@ Local Open Scope Z_scope.
     MaxPeriod; disabled epochs mint nothing and leave c alone; staking and community receive the floors of their
     proportions, the strategic reserve the remainder, the module account is left empty; CurrentPeriod = min(c/EPP, MaxPeriod).
     The final state is consistent again.
-    [run false] is the model of a tree on which a positive provision below one unibi does not panic (true since the
+    THE SUDO ROOT is part of the state and of the history: it is any OPERABLE account — an ordinary account or the
+    governance module account — at the start and after every MsgChangeRoot of the history (by the current root; attempts
+    by others change nothing), and the statement holds for every application wiring [B] (the x/bank blocked-recipient
+    table, module account names) that lets every operable root receive: [wiring_ok B].  For the table of this tree that
+    is the obligation C13_operable_roots_can_receive (Gen/C13Oblig.v, re-extracted from the linked application on every
+    run); where it fails the statement is false (C13_governance_root_blocked_refuted).
+    [run B false] is the model of a tree on which a positive provision below one unibi does not panic (true since the
     fix: commit 2259f46; the driver probes it on every run, and on a tree where it panics the schedule predicate is
     false on the implementation trace — C13_sub_unit_provision_panics_before_fix). *)
 Theorem C13_period_tracks_schedule :
-  forall (ops : list op) (s : st) (e : Z),
+  forall (B : list string) (ops : list op) (s : st) (e : Z),
     let p := s_params s in
+    wiring_ok B -> operable (s_root s) = true ->
     Consistent s e -> s_module s = 0 -> 0 <= peek (s_skipped s) -> small (p_epp p) (p_max p) ->
     hist_ok (p_epp p) (p_max p) p (n_of s e - 1) e ops ->
-    map view_of (snd (run false s ops)) = snd (spec_run {| q_params := p; q_c := n_of s e - 1 |} ops) /\
-    exists e', Consistent (fst (run false s ops)) e' /\
+    map view_of (snd (run B false s ops)) = snd (spec_run {| q_params := p; q_c := n_of s e - 1 |} ops) /\
+    exists e', Consistent (fst (run B false s ops)) e' /\ operable (s_root (fst (run B false s ops))) = true /\
                fst (spec_run {| q_params := p; q_c := n_of s e - 1 |} ops) =
-               {| q_params := s_params (fst (run false s ops)); q_c := n_of (fst (run false s ops)) e' - 1 |}.
+               {| q_params := s_params (fst (run B false s ops)); q_c := n_of (fst (run B false s ops)) e' - 1 |}.
 Proof. exact period_tracks_schedule. Qed.
 Print Assumptions C13_period_tracks_schedule.
 
@@ -53,19 +60,19 @@ Print Assumptions C13_genesis_consistent.
 (** … and a module that never started becomes consistent with the first day epoch that ends while it is
     disabled, whatever its skipped counter and the epoch number were. *)
 Theorem C13_fresh_start_consistent :
-  forall (zp : bool) (s : st) (e : Z),
+  forall (B : list string) (zp : bool) (s : st) (e : Z),
     p_started (s_params s) = false -> p_enabled (s_params s) = false -> peek (s_period s) = 0 ->
     0 <= p_max (s_params s) -> 0 < p_epp (s_params s) ->
-    Consistent (fst (after_epoch_end zp s true e)) (e + 1).
+    Consistent (fst (after_epoch_end B zp s true e)) (e + 1).
 Proof. exact fresh_start_consistent. Qed.
 Print Assumptions C13_fresh_start_consistent.
 
 (** Epochs while disabled mint nothing, move nothing, and do not advance the schedule. *)
 Theorem C13_disabled_epochs_mint_nothing_and_do_not_advance :
-  forall (zp : bool) (s : st) (e : Z),
+  forall (B : list string) (zp : bool) (s : st) (e : Z),
     p_enabled (s_params s) = false -> 0 <= peek (s_skipped s) < two64 - 1 ->
-    let s' := fst (after_epoch_end zp s true e) in
-    let x := snd (after_epoch_end zp s true e) in
+    let s' := fst (after_epoch_end B zp s true e) in
+    let x := snd (after_epoch_end B zp s true e) in
     o_minted x = 0 /\ o_staking x = 0 /\ o_community x = 0 /\ o_strategic x = 0 /\ o_panic x = false /\
     s_module s' = s_module s /\ s_period s' = s_period s /\ s_params s' = s_params s /\
     (p_started (s_params s) = true -> n_of s' (e + 1) = n_of s e) /\
@@ -73,13 +80,14 @@ Theorem C13_disabled_epochs_mint_nothing_and_do_not_advance :
 Proof. exact disabled_epochs_mint_nothing. Qed.
 Print Assumptions C13_disabled_epochs_mint_nothing_and_do_not_advance.
 
-(** Everything minted is distributed in the same call, in ANY state with valid proportions (consistent or not):
+(** Everything minted is distributed in the same call, in ANY state with valid proportions (consistent or not) whose
+    sudo root the bank does not refuse as a recipient (every ordinary account; a module account not in the table):
     staking = floor(minted * p_staking), community = floor(minted * p_community), strategic = the remainder
     (plus whatever lay in the module account), module account empty. *)
 Theorem C13_all_distributed :
-  forall (zp : bool) (s : st) (e : Z),
-    dist_ok (s_params s) -> 0 <= s_module s ->
-    let x := snd (after_epoch_end zp s true e) in
+  forall (B : list string) (zp : bool) (s : st) (e : Z),
+    blocked B (s_root s) = false -> dist_ok (s_params s) -> 0 <= s_module s ->
+    let x := snd (after_epoch_end B zp s true e) in
     0 <= o_minted x /\
     (0 < o_minted x ->
        o_staking x + o_community x + o_strategic x = o_minted x + s_module s /\ o_module x = 0 /\
@@ -89,14 +97,15 @@ Theorem C13_all_distributed :
 Proof. exact all_distributed. Qed.
 Print Assumptions C13_all_distributed.
 
-(** … and along EVERY history from EVERY state (any counters, any edits of the params, stray coins): at each
-    day-epoch end with valid proportions [dist_step] holds — minted >= 0, the three recipients receive the minted
+(** … and along EVERY history from EVERY state (any counters, any edits of the params, stray coins, any sudo root and
+    any MsgChangeRoot) under a wiring that lets every operable root receive: at each day-epoch end with valid
+    proportions at which the sudo root is an operable account [dist_step] holds — minted >= 0, the three recipients receive the minted
     amount plus what lay in the module account, floors for staking / community, module account empty. *)
 Theorem C13_distributed_along_every_history :
-  forall (zp : bool) (ops : list op) (s : st),
-    0 <= s_module s -> Forall fund_nonneg ops ->
-    P_dist (s_params s) (s_module s) (combine ops (snd (run zp s ops))).
-Proof. exact distributed_along_every_history. Qed.
+  forall (B : list string) (zp : bool) (ops : list op) (s : st),
+    wiring_ok B -> 0 <= s_module s -> Forall fund_nonneg ops ->
+    P_dist (s_params s) (s_root s) (s_module s) (combine ops (snd (run B zp s ops))).
+Proof. intros B zp ops s HW. exact (distributed_along_every_history B zp HW ops s). Qed.
 Print Assumptions C13_distributed_along_every_history.
 
 (** … and along EVERY history from EVERY state — counters consistent, behind, or AHEAD of the epoch number — every
@@ -104,13 +113,14 @@ Print Assumptions C13_distributed_along_every_history.
     counters are ahead the period does not advance until the epoch number has caught up; the skipped counter is
     untouched.  (Evaluated on every implementation trace.) *)
 Theorem C13_integer_rollover_along_every_history :
-  forall (zp : bool) (ops : list op) (s : st),
-    P_roll (s_params s) (s_module s) (peek (s_period s)) (peek (s_skipped s)) (combine ops (snd (run zp s ops))).
-Proof. exact roll_along_every_history. Qed.
+  forall (B : list string) (zp : bool) (ops : list op) (s : st),
+    wiring_ok B ->
+    P_roll (s_params s) (s_root s) (s_module s) (peek (s_period s)) (peek (s_skipped s)) (combine ops (snd (run B zp s ops))).
+Proof. intros B zp ops s HW. exact (roll_along_every_history B zp HW ops s). Qed.
 Print Assumptions C13_integer_rollover_along_every_history.
 
 Theorem C13_rollover_checker_sound :
-  forall tr p m0 per sk, Pb_roll p m0 per sk tr = true -> P_roll p m0 per sk tr.
+  forall tr p rt m0 per sk, Pb_roll p rt m0 per sk tr = true -> P_roll p rt m0 per sk tr.
 Proof. exact Pb_roll_sound. Qed.
 Print Assumptions C13_rollover_checker_sound.
 
@@ -125,14 +135,14 @@ Print Assumptions C13_rollover_test_without_wraparound.
 (** Inconsistent genesis, period behind the schedule: every enabled epoch mints the amount of the LAGGING period
     and advances the period by one; the lag never grows. *)
 Theorem C13_inconsistent_genesis_catches_up :
-  forall (zp : bool) (s : st) (e : Z),
+  forall (B : list string) (zp : bool) (s : st) (e : Z),
     let p := s_params s in let per := peek (s_period s) in let n := n_of s e in
-    p_enabled p = true -> dist_ok p -> s_module s = 0 ->
+    blocked B (s_root s) = false -> p_enabled p = true -> dist_ok p -> s_module s = 0 ->
     0 < p_epp p < two62 -> 0 <= per < p_max p -> 0 <= p_epp p * per < two62 -> 0 <= e < two62 ->
     0 <= peek (s_skipped s) < two62 -> PREC <= poly_provision p per ->
     per < (n - 1) / p_epp p ->
-    let s' := fst (after_epoch_end zp s true e) in
-    o_minted (snd (after_epoch_end zp s true e)) = truncate_int (poly_provision p per) /\
+    let s' := fst (after_epoch_end B zp s true e) in
+    o_minted (snd (after_epoch_end B zp s true e)) = truncate_int (poly_provision p per) /\
     peek (s_period s') = per + 1 /\
     (n_of s' (e + 1) - 1) / p_epp p - peek (s_period s') <= (n - 1) / p_epp p - per.
 Proof. exact behind_catches_up. Qed.
@@ -140,33 +150,33 @@ Print Assumptions C13_inconsistent_genesis_catches_up.
 
 (** Inconsistent genesis, period ahead of the schedule: the period waits (and its amount keeps being minted). *)
 Theorem C13_period_ahead_of_schedule_waits :
-  forall (zp : bool) (s : st) (e : Z),
+  forall (B : list string) (zp : bool) (s : st) (e : Z),
     let p := s_params s in let per := peek (s_period s) in let n := n_of s e in
-    p_enabled p = true -> dist_ok p -> s_module s = 0 ->
+    blocked B (s_root s) = false -> p_enabled p = true -> dist_ok p -> s_module s = 0 ->
     0 < p_epp p < two62 -> 0 <= per < p_max p -> 0 <= p_epp p * per < two62 -> 0 <= e < two62 ->
     0 <= peek (s_skipped s) < two62 -> PREC <= poly_provision p per ->
     (n - 1) / p_epp p < per -> 1 <= n ->
-    o_minted (snd (after_epoch_end zp s true e)) = truncate_int (poly_provision p per) /\
-    peek (s_period (fst (after_epoch_end zp s true e))) = per.
+    o_minted (snd (after_epoch_end B zp s true e)) = truncate_int (poly_provision p per) /\
+    peek (s_period (fst (after_epoch_end B zp s true e))) = per.
 Proof. exact ahead_waits. Qed.
 Print Assumptions C13_period_ahead_of_schedule_waits.
 
 (** The quantifier of the property allows any genesis counters; the closed form is FALSE for an inconsistent one
     (a started chain imported with zeroed counters at day epoch 7 mints the amount of period 0 instead of period 3). *)
 Theorem C13_closed_form_refuted_for_inconsistent_genesis :
-  exists s e, dist_ok (s_params s) /\ poly_unit (s_params s) /\ s_module s = 0 /\
+  forall B : list string, exists s e, dist_ok (s_params s) /\ poly_unit (s_params s) /\ s_module s = 0 /\
               p_started (s_params s) = true /\ ~ Consistent s e /\
-              o_minted (snd (after_epoch_end true s true e)) <> sched_mint (s_params s) (n_of s e - 1).
+              o_minted (snd (after_epoch_end B true s true e)) <> sched_mint (s_params s) (n_of s e - 1).
 Proof. exact closed_form_refuted_for_inconsistent_genesis. Qed.
 Print Assumptions C13_closed_form_refuted_for_inconsistent_genesis.
 
 (** … and for a never-started module that is switched on before any day epoch ended while the epoch counter is
     ahead of the skipped counter (periods roll over after every epoch instead of every second one). *)
 Theorem C13_first_enable_without_a_disabled_epoch_refuted :
-  exists s e, p_started (s_params s) = false /\ p_enabled (s_params s) = false /\ peek (s_period s) = 0 /\
-    let s1 := fst (step true s (Toggle true true)) in
+  forall B : list string, exists s e, p_started (s_params s) = false /\ p_enabled (s_params s) = false /\ peek (s_period s) = 0 /\
+    let s1 := fst (step B true s (Toggle true true)) in
     ~ Consistent s1 e /\
-    map o_period (snd (run true s1 [EpochEnd true 7; EpochEnd true 8; EpochEnd true 9; EpochEnd true 10])) = [1; 2; 3; 4].
+    map o_period (snd (run B true s1 [EpochEnd true 7; EpochEnd true 8; EpochEnd true 9; EpochEnd true 10])) = [1; 2; 3; 4].
 Proof. exact first_enable_without_a_disabled_epoch_refuted. Qed.
 Print Assumptions C13_first_enable_without_a_disabled_epoch_refuted.
 
@@ -175,9 +185,9 @@ Print Assumptions C13_first_enable_without_a_disabled_epoch_refuted.
     yields less than one unibi per epoch makes the epoch hook panic in a consistent state — in BeginBlock this
     halts the chain.  The reverse of the fix is reported as a violation (the schedule predicate demands no panic). *)
 Theorem C13_sub_unit_provision_panics_before_fix :
-  exists s e, Consistent s e /\ dist_ok (s_params s) /\ poly_pos (s_params s) /\ s_module s = 0 /\
-              o_panic (snd (after_epoch_end true s true e)) = true /\
-              o_panic (snd (after_epoch_end false s true e)) = false.
+  forall B : list string, exists s e, Consistent s e /\ dist_ok (s_params s) /\ poly_pos (s_params s) /\ s_module s = 0 /\
+              o_panic (snd (after_epoch_end B true s true e)) = true /\
+              o_panic (snd (after_epoch_end B false s true e)) = false.
 Proof. exact sub_unit_provision_panics. Qed.
 Print Assumptions C13_sub_unit_provision_panics_before_fix.
 
@@ -186,14 +196,69 @@ Theorem C13_checker_sound : forall q tr, Pb_trace q tr = true -> P_trace q tr.
 Proof. exact Pb_trace_sound. Qed.
 Print Assumptions C13_checker_sound.
 
-Theorem C13_distribution_checker_sound : forall tr p m0, Pb_dist p m0 tr = true -> P_dist p m0 tr.
+Theorem C13_distribution_checker_sound : forall tr p rt m0, Pb_dist p rt m0 tr = true -> P_dist p rt m0 tr.
 Proof. exact Pb_dist_sound. Qed.
 Print Assumptions C13_distribution_checker_sound.
 
 (** … and wherever the check evaluates it ([pre]), the case lies inside the hypotheses of the main theorem, so the
     model's own trace of that case satisfies it. *)
 Theorem C13_check_precondition_sound :
-  forall c : case, pre c = true ->
-    P_trace (start_q c) (combine (map fst (c_tr c)) (snd (run false (c_init c) (map fst (c_tr c))))).
+  forall (B : list string) (c : case), wiring_ok B -> pre c = true ->
+    P_trace (start_q c) (combine (map fst (c_tr c)) (snd (run B false (c_init c) (map fst (c_tr c))))).
 Proof. exact pre_sound. Qed.
 Print Assumptions C13_check_precondition_sound.
+
+(* ---------------------------------------------------------------- the sudo root and the bank's blocked-recipient table *)
+
+(** The wiring fact, decidable on a table: the governance module account is not blocked (ordinary accounts never are). *)
+Theorem C13_wiring_fact_decidable :
+  forall B : list string, (wiring_okb B = true -> wiring_ok B) /\ (wiring_ok B <-> blocked B (RMod gov_account) = false).
+Proof. intro B. split; [exact (wiring_okb_sound B)|exact (wiring_ok_gov B)]. Qed.
+Print Assumptions C13_wiring_fact_decidable.
+
+(** THE FAILING-TRANSFER BRANCH of AllocatePolynomialInflation / AfterEpochEnd, exactly: when the bank refuses the
+    sudo root (a module account in the blocked table [B]) a minting day-epoch end still mints and still pays the
+    staking and community floors, pays nothing to the strategic reserve, leaves that share in the inflation module
+    account, and returns before the roll-over test — CurrentPeriod and NumSkippedEpochs untouched.  So the failure is
+    NOT atomic, and with such a root the period never advances. *)
+Theorem C13_blocked_root_partial_effects :
+  forall (B : list string) (zp : bool) (s : st) (e : Z),
+    blocked B (s_root s) = true -> dist_ok (s_params s) -> 0 <= s_module s ->
+    let x := snd (after_epoch_end B zp s true e) in
+    let s' := fst (after_epoch_end B zp s true e) in
+    0 < o_minted x ->
+    o_staking x = o_minted x * p_staking (s_params s) / PREC /\
+    o_community x = o_minted x * p_community (s_params s) / PREC /\
+    o_strategic x = 0 /\
+    o_module x = s_module s + o_minted x - o_staking x - o_community x /\
+    s_period s' = s_period s /\ s_skipped s' = s_skipped s /\ o_period x = peek (s_period s).
+Proof. exact blocked_root_partial_effects. Qed.
+Print Assumptions C13_blocked_root_partial_effects.
+
+Theorem C13_blocked_root_not_distributed :
+  forall (B : list string) (zp : bool) (s : st) (e : Z),
+    blocked B (s_root s) = true -> dist_ok (s_params s) -> 0 <= s_module s ->
+    let x := snd (after_epoch_end B zp s true e) in
+    0 < o_minted x -> o_staking x + o_community x < o_minted x + s_module s ->
+    o_staking x + o_community x + o_strategic x <> o_minted x + s_module s /\ o_module x <> 0.
+Proof. exact blocked_root_not_distributed. Qed.
+Print Assumptions C13_blocked_root_not_distributed.
+
+(** REFUTED for every wiring that blocks the governance module account (e.g. a blocked list derived from the module
+    account permissions): governance is an operable sudo root (MsgChangeRoot to it, proposals sign as it); from a
+    consistent state with valid proportions and a polynomial >= 1 unibi the first enabled day epoch pays the root
+    nothing, the parts fall short of the minted amount, the module account is not empty, and after EpochsPerPeriod
+    enabled epochs the period is still 0 where the schedule says 1. *)
+Theorem C13_governance_root_blocked_refuted :
+  forall B : list string,
+    blocked B (RMod gov_account) = true ->
+    exists s e, operable (s_root s) = true /\ Consistent s e /\ dist_ok (s_params s) /\ poly_unit (s_params s) /\
+      s_module s = 0 /\
+      let x := snd (after_epoch_end B false s true e) in
+      let s1 := fst (after_epoch_end B false s true e) in
+      let x2 := snd (after_epoch_end B false s1 true (e + 1)) in
+      0 < o_minted x /\ o_staking x + o_community x + o_strategic x < o_minted x /\ 0 < o_module x /\
+      o_period x2 = 0 /\ sched_period (s_params s) 2 = 1 /\
+      o_minted x2 + o_minted x = o_module x2 + o_staking x + o_community x + o_staking x2 + o_community x2.
+Proof. exact gov_blocked_refuted. Qed.
+Print Assumptions C13_governance_root_blocked_refuted.
